@@ -350,3 +350,19 @@ Definition fuse_post (blob : bytes) (store : store_t) (calls calls' : nat) (off 
   | FEIO => off < 0 \/ L < off \/ exists c k i, (calls <= k < calls')%nat /\ store k i = SFail c
   | FPanic | FNoFuel => False
   end.
+
+(* ---- overlapping requests on different handles ----
+   One handle as seen from that handle: its own requests run one after the other (the handle's mutex), and the
+   handle shares nothing with the other handles but the store.  Requests of other handles that overlap in time
+   therefore change only WHICH store answers (which global call numbers) this handle's GetChunk calls receive.
+   A request is given here together with the store answers it sees: [(store view, first call number, off, len)];
+   the views of different requests are unrelated, which covers every interleaving with any number of other handles. *)
+Fixpoint handle_run (nc : nullchunk) (idx : index) (s : ipos) (rqs : list (store_t * nat * Z * nat))
+  : ipos * list fres :=
+  match rqs with
+  | [] => (s, [])
+  | (st, calls, off, len) :: rest =>
+      let '((s', _), r) := fuse_read st nc idx (s, calls) off len in
+      let '(s'', rs) := handle_run nc idx s' rest in
+      (s'', r :: rs)
+  end.
